@@ -8,9 +8,27 @@
 // out: ok, errs [..], deps [..], public [indices], warned [dep paths, in the order reported],
 //      other_warnings [..], facts {path: {pkg, imports [[path, public]], syms [[full name, kind]]}}
 //      for every file reachable from the root, variants {dep: {ok, same, errs, warned}}
+//
+// mode "multi" (which files are checked at all): one Compile call that requests several files of
+// an import graph at once.
+// in:  mode "multi", files {path: text}, req [paths; the entry "@fill" stands for the filler files],
+//      fillers n (generated files fillNNNN.proto, each with one unused import of unused.proto, all
+//      explicitly requested at the position of "@fill"), par (MaxParallelism), yield (seed of the
+//      schedule perturbation through the compiler's verif yield hook, 0 = none), rounds
+// out: ref {path: [warned imports, sorted]} for every distinct requested file compiled as the only
+//      requested file (MaxParallelism 1, no perturbation), ref_errs,
+//      runs [{ok, errs, warned {path: [warned imports, sorted]} (every file that got a warning,
+//      fillers excluded), fill_bad [fillers whose warnings are not exactly unused.proto, first 5],
+//      fill_bad_n}]
 package main
 
 import (
+	"fmt"
+	"runtime"
+	"strings"
+	"sync"
+	"time"
+
 	"bytes"
 	"context"
 	"errors"
@@ -158,11 +176,147 @@ func strs(s []string) []string {
 	return s
 }
 
+type multiRun struct {
+	ok     bool
+	errs   []string
+	warned map[string][]string
+}
+
+// one Compile call for the whole request list; warnings are keyed by the file they are reported in
+func compileMany(files map[string]string, req []string, par int, yieldSeed int64) multiRun {
+	r := multiRun{warned: map[string][]string{}}
+	var mu sync.Mutex
+	rep := reporter.NewReporter(func(e reporter.ErrorWithPos) error {
+		mu.Lock()
+		defer mu.Unlock()
+		r.errs = append(r.errs, e.Error())
+		return nil
+	}, func(e reporter.ErrorWithPos) {
+		var u linker.ErrorUnusedImport
+		if errors.As(e, &u) {
+			mu.Lock()
+			defer mu.Unlock()
+			fn := e.GetPosition().Filename
+			r.warned[fn] = append(r.warned[fn], u.UnusedImport())
+		}
+	})
+	if yieldSeed != 0 {
+		st := uint64(yieldSeed)
+		var ymu sync.Mutex
+		protocompile.VerifSetYieldHook(func(string) {
+			ymu.Lock()
+			st += 0x9e3779b97f4a7c15
+			z := st
+			z = (z ^ (z >> 30)) * 0xbf58476d1ce4e5b9
+			z = (z ^ (z >> 27)) * 0x94d049bb133111eb
+			z ^= z >> 31
+			ymu.Unlock()
+			switch z % 4 {
+			case 1:
+				runtime.Gosched()
+			case 2:
+				time.Sleep(time.Duration(z>>8%150) * time.Microsecond)
+			case 3:
+				for k := 0; k < int(z>>8%5); k++ {
+					runtime.Gosched()
+				}
+			}
+		})
+		defer protocompile.VerifSetYieldHook(nil)
+	}
+	comp := protocompile.Compiler{
+		Resolver:       protocompile.WithStandardImports(&protocompile.SourceResolver{Accessor: protocompile.SourceAccessorFromMap(files)}),
+		Reporter:       rep,
+		MaxParallelism: par,
+	}
+	out, err := comp.Compile(context.Background(), req...)
+	if err != nil {
+		r.errs = append(r.errs, err.Error())
+	}
+	r.ok = err == nil && len(r.errs) == 0 && len(out) == len(req)
+	for _, l := range r.warned {
+		sort.Strings(l)
+	}
+	return r
+}
+
+func multiCase(in map[string]any, files map[string]string) map[string]any {
+	nFill := int(vhlib.Num(in, "fillers"))
+	rounds := int(vhlib.Num(in, "rounds"))
+	if rounds < 1 {
+		rounds = 1
+	}
+	fillers := map[string]bool{}
+	var req, real []string
+	seen := map[string]bool{}
+	for _, p := range vhlib.Strs(in, "req") {
+		if p != "@fill" {
+			req = append(req, p)
+			if !seen[p] {
+				seen[p] = true
+				real = append(real, p)
+			}
+			continue
+		}
+		for k := 0; k < nFill; k++ {
+			name := fmt.Sprintf("fill%05d.proto", k)
+			files[name] = fmt.Sprintf("syntax = \"proto3\";\nimport \"unused.proto\";\nmessage Fill%05d { string s = 1; }\n", k)
+			fillers[name] = true
+			req = append(req, name)
+		}
+	}
+	ref := map[string]any{}
+	var refErrs []string
+	for _, p := range real {
+		r := compileMany(files, []string{p}, 1, 0)
+		if !r.ok {
+			refErrs = append(refErrs, p+": "+strings.Join(r.errs, " | "))
+		}
+		ref[p] = strs(r.warned[p])
+		for q := range r.warned {
+			if q != p {
+				refErrs = append(refErrs, "compiling "+p+" alone reported an unused import in "+q)
+			}
+		}
+	}
+	var runs []any
+	for k := 0; k < rounds; k++ {
+		seed := vhlib.Num(in, "yield")
+		if seed != 0 {
+			seed += int64(k)
+		}
+		r := compileMany(files, req, int(vhlib.Num(in, "par")), seed)
+		warned := map[string]any{}
+		var bad []string
+		nBad := 0
+		for p, l := range r.warned {
+			if !fillers[p] {
+				warned[p] = l
+			}
+		}
+		for k := 0; k < nFill; k++ {
+			name := fmt.Sprintf("fill%05d.proto", k)
+			l := r.warned[name]
+			if len(l) != 1 || l[0] != "unused.proto" {
+				nBad++
+				if len(bad) < 5 {
+					bad = append(bad, name)
+				}
+			}
+		}
+		runs = append(runs, map[string]any{"ok": r.ok, "errs": strs(r.errs), "warned": warned, "fill_bad": strs(bad), "fill_bad_n": nBad})
+	}
+	return map[string]any{"ref": ref, "ref_errs": strs(refErrs), "runs": runs}
+}
+
 func unusedCase(in map[string]any) map[string]any {
 	files := map[string]string{}
 	fm, _ := in["files"].(map[string]any)
 	for k, v := range fm {
 		files[k], _ = v.(string)
+	}
+	if vhlib.Str(in, "mode") == "multi" {
+		return multiCase(in, files)
 	}
 	root := vhlib.Str(in, "root")
 	base := compileRoot(files, root)
